@@ -41,19 +41,21 @@ type unexTwo struct {
 	c bool   //nolint:unused
 }
 
+// (exported fields in the alphabetical order of their names: the plain tree keeps its members sorted, and on a
+// struct the declaration order is the order of the results)
 type unexNest struct {
-	P *unexLast
-	Q unexMid
 	L []unexLast
 	O unexOnly
+	P *unexLast
+	Q unexMid
 	T *unexTwo
 	z int64 //nolint:unused
 }
 
 type unexDeep struct {
 	h bool //nolint:unused
-	N []unexNest
 	K *unexNest
+	N []unexNest
 }
 
 func ints(xs ...int64) *Node {
@@ -117,7 +119,7 @@ func structStream(emit func(Case)) int {
 				continue
 			}
 			rep.Count("stream.structs_unexported", 1)
-			emit(Case{p: p, t: trees[i], src: "structs_unexported", reps: []Rep{repSimple, repHeld}, held: v})
+			emit(Case{p: p, t: trees[i], src: "structs_unexported", reps: []Rep{repSimple, repHeld}, held: v, hidx: i})
 			n++
 		}
 	}
